@@ -175,9 +175,52 @@ func (r *RoundTripper) RoundTripOpt(req *http.Request, opt RoundTripOpt) (*http.
 			if nerr, ok := err.(net.Error); ok && nerr.Timeout() {
 				return r.RoundTripOpt(req, opt)
 			}
+			// The cached connection turned out to be closed (e.g. by the peer, after the previous
+			// exchange): a request that can be replayed gets a new connection, like in net/http.
+			if !opt.OnlyCachedConn && isReplayable(req) && (isConnClosed(cl.conn) || isConnError(err)) {
+				return r.RoundTripOpt(req, opt)
+			}
 		}
 	}
 	return rsp, err
+}
+
+// isConnClosed reports whether the QUIC connection is closed.
+func isConnClosed(conn quic.EarlyConnection) bool {
+	select {
+	case <-conn.Context().Done():
+		return true
+	default:
+		return false
+	}
+}
+
+// isConnError reports whether err is the error a closed QUIC connection fails a new stream with.
+func isConnError(err error) bool {
+	var (
+		appErr       *quic.ApplicationError
+		transportErr *quic.TransportError
+		resetErr     *quic.StatelessResetError
+	)
+	return errors.As(err, &appErr) || errors.As(err, &transportErr) || errors.As(err, &resetErr)
+}
+
+// isReplayable reports whether the request may be sent again on a new connection
+// (the rule of net/http for requests without a body: an idempotent method, or an idempotency key).
+func isReplayable(req *http.Request) bool {
+	if req.Body == nil || req.Body == http.NoBody {
+		switch req.Method {
+		case "", http.MethodGet, http.MethodHead, http.MethodOptions, http.MethodTrace:
+			return true
+		}
+		if _, ok := req.Header["Idempotency-Key"]; ok {
+			return true
+		}
+		if _, ok := req.Header["X-Idempotency-Key"]; ok {
+			return true
+		}
+	}
+	return false
 }
 
 // RoundTrip does a round trip.
@@ -244,6 +287,17 @@ func (r *RoundTripper) getClient(ctx context.Context, hostname string, onlyCache
 	}
 
 	cl, ok := r.clients[hostname]
+	if ok {
+		// a cached connection that has been closed meanwhile cannot serve another request
+		select {
+		case <-cl.dialing:
+			if cl.dialErr == nil && cl.conn != nil && isConnClosed(cl.conn) {
+				delete(r.clients, hostname)
+				ok = false
+			}
+		default:
+		}
+	}
 	if !ok {
 		if onlyCached {
 			return nil, false, ErrNoCachedConn
